@@ -4,10 +4,10 @@ package world
 // user actions (incl. the real kubectl-eds command bodies), node churn, clock ticks.
 
 import (
-	"k8s.io/apimachinery/pkg/util/intstr"
 	"bytes"
 	"context"
 	"fmt"
+	"k8s.io/apimachinery/pkg/util/intstr"
 	"strings"
 	"time"
 
